@@ -44,6 +44,7 @@ def generate(rnd, tier):
         n = rnd.randint(1, 5); off = rnd.choice([1, 1, 0, 4])
         kp = [rnd.choice(["", "("]), rnd.choice([") ", "] "]), off]
         def inner(j):
+            if rnd.random() < 0.15: return ["sep", rnd.randint(1, 2)]            # a separator is an item like any other: it has a number and can be selected
             if rnd.random() < 0.5: return ["text", "w%d" % j]
             return ["list", False, 1, None, 1, rnd.choice([["[", "] ", rnd.choice([7, 1, 20])], ["", ") ", 1], None]), [["text", "i%d_%d" % (j, q)] for q in range(rnd.randint(1, 4))]]
         items = [inner(j) for j in range(n)]
@@ -84,7 +85,7 @@ def monitor(case, obs):
             for i, it in enumerate(items):
                 line = r["lines"][row] if row < len(r["lines"]) else ""
                 if not line.startswith(labels[i].rstrip()): return "item %d is selected by %r but the line it starts on shows %r" % (i, str(i + kp[2]), line[:20])
-                row += 1 if it[0] == "text" else len(it[6])
+                row += 1 if it[0] == "text" else it[1] if it[0] == "sep" else max(1, len(it[6]))
         for k, (key, o) in enumerate(zip(case["keys"], obs["keys"])):
             if o["n_fired"] > 1: return "key #%d %r invoked %d callbacks" % (k, key, o["n_fired"])
             v = monitor({"op": "key", "kp": kp, "items": case["cbs"], "key": key}, {"handled": True if o["raised"] else o["handled"], "fired": o["fired"], "labels": labels})
